@@ -7,7 +7,8 @@ RULE = ("call trees up to depth 4 over a pool of generated callee contracts (eac
         "every call kind (CALL/STATICCALL/DELEGATECALL/CALLCODE/CREATE), concrete and symbolic values and arguments; the real "
         "SEVM's end states are compared with the Lean reference EVM on concrete inputs: success flags and returndata seen by "
         "each caller, storage/transient storage/balances/created code after the tree, value conservation")
-TRUSTED = ["Spec.Evm (Lean reference interpreter, frames with snapshot/rollback written from the Yellow Paper)"]
+TRUSTED = ["Spec.Evm (Lean reference interpreter, frames with snapshot/rollback written from the Yellow Paper)",
+           "tools/vlib/callsmodel.py + Driver/Calls.lean: the two compilers of a call tree (to EVM contracts / to a Model.Calls.Frame) follow the same conventions (checked against each other through the reference EVM on every case)"]
 ASSUMPTIONS = ["CREATE addresses follow halmos' deterministic allocator; gas stipends and the 63/64 rule are not modelled"]
 
 FEATURES = {"calls": True, "create": True, "static": True, "value_in_static": False}
@@ -59,8 +60,16 @@ def correspond(ctx):
     from vlib import sevmcheck
 
     sevmcheck.run(ctx, ID, dict(FEATURES), n_scenarios=ctx.scale(70, 1500), n_random_inputs=ctx.scale(6, 12), cfgs=CFGS, gen=gen_tree)
+    # model-vs-implementation: random call trees on the real SEVM, on Model.Calls (Driver/Calls.lean) and on the reference EVM
+    from vlib import callsmodel
+
+    callsmodel.run(ctx, n_trees=ctx.scale(150, 2500), n_inputs=ctx.scale(3, 5))
 
 
 def replay(ctx, data):
+    if data.get("kind") == "callsmodel":
+        from vlib import callsmodel
+
+        return callsmodel.replay(ctx, data)
     print("stored program and inputs are in the replay file; re-run ./check C09 to re-evaluate the corpus")
     return True
